@@ -3,7 +3,7 @@
    Spec.v (renamed, related, local_iso, redirects_ok, streams_ok). *)
 From Coq Require Import List NArith ZArith Bool.
 From GoPdf.Base Require Import Res.
-From GoPdf.C11 Require Import Copier Checker Spec CopierLemmas CopierProofs CheckerProofs TotalProofs Refuted ModelPaths PreFix.
+From GoPdf.C11 Require Import Copier Checker Spec CopierLemmas CopierProofs CheckerProofs TotalProofs Refuted ModelPaths PreFix StreamCrypt StreamCryptProofs.
 Import ListNotations.
 
 (* ---- the model copier, for all source graphs and all call sequences -------- *)
@@ -150,20 +150,78 @@ Theorem iso_sharing :
 Proof. exact CheckerProofs.iso_sharing. Qed.
 Print Assumptions iso_sharing.
 
-(* The model copier's output passes the checker's conditions: with iso_paths,
-   iso_shape and iso_sharing, source and target agree along every access path
-   from every call's argument / result (call sequences without Redirect;
-   dictionaries are finite maps). *)
+(* Redirect: the same agreement along every access path that does not pass
+   through an object the caller replaced (R = the redirected references) *)
+Theorem iso_paths_R :
+  forall R src tgt tr a b,
+    local_iso_R R src tgt tr -> root_ok src tr (a, b) ->
+    forall p, walk_clear R src a p -> related src tr (walk_src src a p) (walk_tgt tgt b p).
+Proof. exact CheckerProofs.iso_paths_R. Qed.
+Print Assumptions iso_paths_R.
+
+Theorem iso_shape_R :
+  forall R src tgt tr a b,
+    local_iso_R R src tgt tr -> root_ok src tr (a, b) ->
+    forall p, walk_clear R src a (p ++ [SIdx 0]) ->
+      shape_src src (deref_src src (walk_src src a p)) = shape_of (deref_tgt tgt (walk_tgt tgt b p)).
+Proof. exact CheckerProofs.iso_shape_R. Qed.
+Print Assumptions iso_shape_R.
+
+(* The model copier's output satisfies those local conditions, for every call
+   sequence with fresh Redirects (dictionaries are finite maps): with
+   iso_paths_R / iso_shape_R source and target agree along every access path
+   from every copy call's argument / result. *)
 Theorem copy_iso_paths :
   forall src fuel cs next0 results st,
     run_calls src fuel cs (init next0) = Ok (results, st) ->
-    redirected cs = [] ->
+    redirects_fresh src fuel cs (init next0) ->
     (forall r o, In (r, Good o) src -> wf_obj o = true) ->
-    Forall (fun c => wf_obj (call_obj c) = true) cs ->
-    local_iso src (puts st) (trans st) /\
-    Forall2 (fun c res => root_ok src (trans st) (call_obj c, res)) cs results.
+    Forall call_wf cs ->
+    local_iso_R (redirected cs) src (puts st) (trans st) /\
+    Forall2 (call_root_ok src (trans st)) cs results.
 Proof. exact ModelPaths.copy_iso_paths. Qed.
 Print Assumptions copy_iso_paths.
+
+(* ---- stream data across ciphers (StreamCrypt.v) -------------------------------- *)
+
+(* when GetFilters accepts a filter chain, the cheap probe used by the copier
+   and by Writer.OpenStream classifies its head as GetFilters does *)
+Theorem crypt_probe_agrees :
+  forall g f b, head_is_crypt g f = Ok b -> starts_with_crypt g f = Ok b.
+Proof. exact StreamCryptProofs.probe_agrees. Qed.
+Print Assumptions crypt_probe_agrees.
+
+(* the copied stream dictionary declares the /Crypt exemption iff the source
+   one does - given directly, as the first element of an array, or through
+   indirect references *)
+Theorem copy_stream_exempt :
+  forall g gt tr d n d3 h,
+    renamed g tr (OStream d n) (OStream d3 n) ->
+    head_is_crypt g (dget K_Filter d) = Ok h ->
+    head_is_crypt gt (dget K_Filter d3) = Ok h.
+Proof. exact StreamCryptProofs.copy_stream_exempt. Qed.
+Print Assumptions copy_stream_exempt.
+
+(* For every source cipher sk, target cipher tk (None: unencrypted), target
+   version, and exemption: the bytes a reader of the target obtains for the
+   copied stream (after decryption, and after the remaining filters) are those
+   a reader of the source obtains.  Ciphers: any enc/dec with dec (enc x) = x;
+   the remaining filters: any function of the inlined /Filter and /DecodeParms
+   that does not depend on object numbers. *)
+Theorem copy_stream_bytes :
+  forall (key : Type) (enc dec : key -> ref -> list N -> list N),
+    (forall k r x, dec k r (enc k r x) = x) ->
+  forall unfilter : obj -> obj -> list N -> list N,
+    (forall g tr f f' q q' x, renamed g tr f f' -> renamed g tr q q' -> unfilter f' q' x = unfilter f q x) ->
+  forall g gt tr sk tk ver s t d n d3 disk data disk' x h,
+    renamed g tr (OStream d n) (OStream d3 n) ->
+    head_is_crypt g (dget K_Filter d) = Ok h ->
+    copy_data key dec g sk s d disk = Ok data ->
+    write_data key enc ver tk gt t d3 data = Ok disk' ->
+    decoded_src key dec unfilter g sk s d disk = Ok x ->
+    decoded_tgt key dec unfilter gt tk t d3 disk' = Ok x.
+Proof. exact StreamCryptProofs.copy_stream_bytes. Qed.
+Print Assumptions copy_stream_bytes.
 
 (* ---- the hypotheses are satisfiable ----------------------------------------- *)
 
@@ -215,3 +273,21 @@ Proof. exact PreFix.filter_loop_now. Qed.
 Example ex_redirect_kept_now :
   results_of (run_calls alias_src 10 alias_calls (init 2%N)) = [ORef 2%N; ORef 2%N; ORef 3%N; ORef 2%N].
 Proof. exact PreFix.redirect_kept_now. Qed.
+
+(* stream data: a toy cipher (prepend the key) satisfies the hypothesis; an
+   encrypted source stream exempt through an indirect /Crypt name (object 8),
+   copied into an encrypted target *)
+Definition ex_enc (k : N) (_ : ref) (x : list N) : list N := k :: x.
+Definition ex_dec (_ : N) (_ : ref) (x : list N) : list N := tl x.
+Example ex_cipher : forall k r x, ex_dec k r (ex_enc k r x) = x.
+Proof. reflexivity. Qed.
+
+Definition ex_cg : source := [(8, Good (OScalar 3 K_Crypt))]%N.
+Definition ex_cd : dict := [(K_Filter, OArr [ORef 8%N; OScalar 3%N [70%N]])].
+Example ex_crypt_decisions :
+  head_is_crypt ex_cg (dget K_Filter ex_cd) = Ok true /\
+  copy_data N ex_dec ex_cg (Some 1%N) 5%N ex_cd [7; 7]%N = Ok [7; 7]%N /\
+  write_data N ex_enc 14%N (Some 2%N) [] 9%N [(K_Filter, OArr [OScalar 3%N K_Crypt; OScalar 3%N [70%N]])] [7; 7]%N = Ok [7; 7]%N /\
+  copy_data N ex_dec ex_cg (Some 1%N) 5%N [] [1; 7; 7]%N = Ok [7; 7]%N /\
+  write_data N ex_enc 14%N (Some 2%N) [] 9%N [] [7; 7]%N = Ok [2; 7; 7]%N.
+Proof. vm_compute. repeat split. Qed.
